@@ -57,13 +57,15 @@ void InvariantMixedDiscreteDistribution::updateDistribution()
       distribution_[cats[i]] = (1. - p_) * probs[i];
   }
 
-  intMinMax_->setLowerBound(dist_->getLowerBound(), !dist_->strictLowerBound());
-  intMinMax_->setUpperBound(dist_->getUpperBound(), !dist_->strictUpperBound());
+  // (the second argument of setLowerBound / setUpperBound tells whether the bound is strict, i.e. excluded)
+  intMinMax_->setLowerBound(dist_->getLowerBound(), dist_->strictLowerBound());
+  intMinMax_->setUpperBound(dist_->getUpperBound(), dist_->strictUpperBound());
 
+  // The invariant is a class value of its own, so it belongs to the domain:
   if (invariant_ <= intMinMax_->getLowerBound())
-    intMinMax_->setLowerBound(invariant_, true);
+    intMinMax_->setLowerBound(invariant_, false);
   if (invariant_ >= intMinMax_->getUpperBound())
-    intMinMax_->setUpperBound(invariant_, true);
+    intMinMax_->setUpperBound(invariant_, false);
 
   numberOfCategories_ = distribution_.size();
 
